@@ -101,9 +101,13 @@ def _batch(prop: str, tier: str, vseed: int, start: int, count: int) -> dict:
         try:
             res = safe_run(mod, sc)
         except InvalidScenario as e:
-            res = {"sig": None, "harness": "invalid-generated-scenario", "msg": str(e),
-                   "digest": "", "nontrivial": False, "counters": {}, "sim_s": 0, "deliveries": 0,
-                   "klass": "invalid", "state": None}
+            # the generator drew something its own validator rejects: explored nothing, judged nothing.  Skipping is
+            # sound (it only costs a run); it becomes a harness error when it is more than a rare accident (see main)
+            agg["n"] += 1
+            agg["invalid"] = agg.get("invalid", 0) + 1
+            agg["invalid_first"] = agg.get("invalid_first") or {"run": i, "kind": "invalid-generated-scenario", "msg": str(e)}
+            agg["counters"].update({"skipped.generated_scenario_rejected_by_validator": 1})
+            continue
         agg["n"] += 1
         if res.get("timed_out"):
             agg["timeouts"] = agg.get("timeouts", 0) + 1
@@ -406,6 +410,9 @@ def main(argv=None) -> int:
         total["samples"].sort(key=lambda x: x["run_index"])
         del total["samples"][3:]
         total["timeouts"] = total.get("timeouts", 0) + a.get("timeouts", 0)
+        total["invalid"] = total.get("invalid", 0) + a.get("invalid", 0)
+        if a.get("invalid_first") and not total.get("invalid_first"):
+            total["invalid_first"] = a["invalid_first"]
         for sig, v in a["viol"].items():
             cur = total["viol"].get(sig)
             if cur is None:
@@ -444,6 +451,11 @@ def main(argv=None) -> int:
     if truncated:
         notes.append(f"wall budget {wall_budget}s reached after {total['n']} of {runs} planned runs")
 
+    if total.get("invalid", 0) > max(3, total["n"] // 1000):
+        total["harness"].append(total["invalid_first"])      # more than 0.1 %: the generator is broken
+    elif total.get("invalid", 0):
+        notes.append(f"{total['invalid']} generated scenario(s) rejected by the check's own validator and skipped "
+                     f"(first: run {total['invalid_first']['run']}: {total['invalid_first']['msg']})")
     if total["harness"]:
         for h in total["harness"][:3]:
             print(f"HARNESS-ERROR run={h['run']} {h['kind']}: {h['msg']}")
